@@ -928,6 +928,14 @@ class Interp:
                 o[idx] = v
         elif isinstance(o, SBytes) and o.mutable:
             if isinstance(idx, slice):
+                idx = self.concretize_slice(idx, len(o), node, frame)
+                if isinstance(v, V.ABytes):
+                    # symbolic-length source: after the slice bounds are fixed its length must match (case split)
+                    lo, hi, _ = idx.indices(len(o))
+                    want = max(0, hi - lo)
+                    if not self.branch(v.length == want):
+                        raise Unsupported('slice store that changes the length of a byte buffer')
+                    v = V.mk_bytes([v.at(j) for j in range(want)])
                 o.items[idx] = V.items_of(v)
             else:
                 o.items[self.concrete_index(idx, len(o), node, frame)] = v
